@@ -70,6 +70,7 @@ class Profile:
     p_inspect: int = 10                 # read-only inspection calls at every quiescent point
     p_exc: int = 25                     # among raising jobs: a builtin exception class
     p_label: int = 10                   # an odd label (braces, quotes, %, newline...)
+    p_print: int = 5                    # the job is a PrintJob of the library
     p_rerun: int = 0                    # the judged run is the second run of the same objects
     p_wide: int = 3                     # % of cases whose top scheduler is wide (12..130 jobs)
     p_watch: int = 8                    # a Watch object is passed (shared by the whole tree)
@@ -108,7 +109,8 @@ def _draw_job(draw, prof, wild, wide=False):
     if chance(draw, prof.p_exc):
         extra['exc'] = draw(st.sampled_from(EXC_NAMES))
         if chance(draw, 40):
-            extra['excmsg'] = draw(st.sampled_from(ODD_LABELS))
+            # (an exception without a message, as a bare `raise ValueError()`, is common)
+            extra['excmsg'] = '' if chance(draw, 30) else draw(st.sampled_from(ODD_LABELS))
     if chance(draw, prof.p_late_critical):
         extra['late_critical'] = True       # the job turns critical just before raising
     if chance(draw, prof.p_ret):
@@ -121,6 +123,13 @@ def _draw_job(draw, prof, wild, wide=False):
         extra['b'] = draw(st.sampled_from([0.5, 1, 2]))
     if extra.get('late_critical'):
         extra['critical_'] = True
+    if isinstance(d, (int, float)) and chance(draw, prof.p_print):
+        # the library's own PrintJob: sleeps d, returns None, no shutdown handler of its own
+        return dict(kind='job', id=None, cls='print', d=d, k=0, outcome='return',
+                    critical=chance(draw, prof.p_critical), forever=forever, c=0, sd=0,
+                    hkey=draw(st.integers(0, prof.hkeys - 1)),
+                    tkey=draw(st.integers(0, prof.tkeys - 1)),
+                    late_attrs=False, flagform='bool')
     return dict(
         **extra,
         kind='job', id=None,
@@ -312,6 +321,13 @@ def _force_abstract(spec):
             _force_abstract(m)
 
 
+def _all_scheds(spec):
+    for m in spec['members']:
+        if m['kind'] == 'sched':
+            yield m
+            yield from _all_scheds(m)
+
+
 def assign_ids(spec):
     counters = {'job': 0, 'sched': 0}
 
@@ -329,7 +345,7 @@ def assign_ids(spec):
 
 
 PLAIN = dict(p_label=0, p_exc=0, p_ret=0, p_late_attrs=0, p_watch=0, p_inspect=0, p_prelude=0,
-             p_latefill=0, p_rerun=0, p_block=0, p_wide=0, p_late_critical=0, p_flagform=0, p_cexc=0)
+             p_latefill=0, p_rerun=0, p_print=0, p_block=0, p_wide=0, p_late_critical=0, p_flagform=0, p_cexc=0)
 
 
 @st.composite
@@ -366,6 +382,31 @@ def scenarios(draw, prof=GENERAL):
         if chance(draw, 50) and len(top['members']) <= 130:
             top['prelude'] = True   # re-wired between the two runs
         _force_abstract(top)        # a coroutine object cannot be awaited twice
+        if chance(draw, 40):
+            # some schedulers have members of the first run only, removed before the second
+            # (a critical one that raises makes that first run of its scheduler fail)
+            if prof.allow_empty and len(top['members']) <= 12 and chance(draw, 40):
+                # a nested scheduler that owns nothing but such members: empty when judged
+                emptied = _draw_sched(draw, prof.but(p_empty_nested=100), 1,
+                                      top['timeout'] is not None, [0])
+                emptied['forever'] = False
+                top['members'].append(emptied)
+                top['order'].append(len(top['members']) - 1)
+            scheds = [top] + [m for m in _all_scheds(top)]
+            scheds.sort(key=lambda sp: bool(sp['members']))
+            nghost = 0
+            for sp in scheds[:8]:
+                if chance(draw, 70 if not sp['members'] else 35):
+                    sp['ghosts'] = []
+                    for _ in range(draw(st.integers(1, 2))):
+                        nghost += 1
+                        sp['ghosts'].append(dict(
+                            kind='job', id='g%d' % nghost, cls='abstract',
+                            d=draw(st.sampled_from([0, 1, 2])), k=0,
+                            outcome='raise' if chance(draw, 70) else 'return',
+                            critical=chance(draw, 70), forever=False, c=0, sd=0,
+                            hkey=draw(st.integers(0, prof.hkeys - 1)),
+                            tkey=draw(st.integers(0, prof.tkeys - 1))))
     return assign_ids(top)
 
 
